@@ -70,6 +70,7 @@ pub struct Pools {
     pub epochs: Vec<i64>,   // exporter-secret epochs, epoch-key-pair epochs
     pub leaves: Vec<i64>,   // leaf indexes for epoch key pairs
     pub gkeys: Vec<String>, // keys of the global MLS tables
+    pub names: Vec<String>, // snapshot names
 }
 
 impl Pools {
@@ -83,11 +84,12 @@ impl Pools {
             epochs: vec![0, 1, 2],
             leaves: vec![0, 1],
             gkeys: vec!["k1".into(), "k2".into()],
+            names: vec!["s1".into(), "s2".into()],
         }
     }
     pub fn to_json(&self) -> Value {
         json!({"groups": self.groups, "nids": self.nids, "ids": self.ids, "ws": self.ws, "wids": self.wids,
-               "epochs": self.epochs, "leaves": self.leaves, "gkeys": self.gkeys})
+               "epochs": self.epochs, "leaves": self.leaves, "gkeys": self.gkeys, "names": self.names})
     }
 }
 
@@ -186,7 +188,10 @@ where
         let mut out = json!({});
         match name.as_str() {
             "SaveGroup" => res!(out, st.save_group(tok::group(s(op, "g"), &op["rec"]))),
-            "Relays" => res!(out, st.replace_group_relays(&tok::gid(s(op, "g")), tok::relayset(s(op, "urls")))),
+            "Relays" => {
+                let urls = op["urls"].as_array().unwrap().iter().map(|u| tok::relay(u.as_str().unwrap())).collect();
+                res!(out, st.replace_group_relays(&tok::gid(s(op, "g")), urls))
+            }
             "SaveSecret" => res!(out, st.save_group_exporter_secret(GroupExporterSecret {
                 mls_group_id: tok::gid(s(op, "g")),
                 epoch: i(op, "e") as u64,
@@ -430,10 +435,19 @@ where
             gf.push(tok::group_tok(&r));
         }
         let mut e = json!({"g": g});
-        e["rl"] = match st.group_relays(&gid) {
-            Ok(v) => json!(tok::relayset_tok(v.iter().map(|x| &x.relay_url))),
-            Err(_) => json!("!"),
-        };
+        match st.group_relays(&gid) {
+            Ok(v) => {
+                let mut u: Vec<String> = v.iter().map(|x| tok::relay_tok(&x.relay_url)).collect();
+                u.sort();
+                // every returned relay must carry the group it was asked for
+                e["rlok"] = json!(if v.iter().all(|x| x.mls_group_id == gid) { 1 } else { -9 });
+                e["rl"] = json!(u);
+            }
+            Err(_) => {
+                e["rlok"] = json!(0);
+                e["rl"] = json!([]);
+            }
+        }
         e["ad"] = match st.admins(&gid) {
             Ok(v) => json!(tok::pkset_tok(&v)),
             Err(_) => json!("!"),
